@@ -135,4 +135,31 @@ theorem CMap.lookup_eq_filter (m : CMap) (fk : Bytes) (h : m.WF) :
       rw [e1, List.nil_append]
       exact ih hn' hf'
 
+theorem bucketFilter_aux (p : Bytes → Bool) (bs : List (Bytes × List KV))
+    (hf : ∀ b ∈ bs, ∀ e ∈ b.2, lower e.key = b.1) :
+    (bs.filter fun b => p b.1).flatMap (·.2) = (bs.flatMap (·.2)).filter (fun e => p (lower e.key)) := by
+  induction bs with
+  | nil => rfl
+  | cons b bs ih =>
+    have hb : ∀ e ∈ b.2, lower e.key = b.1 := hf b (by simp)
+    have hf' : ∀ b' ∈ bs, ∀ e ∈ b'.2, lower e.key = b'.1 := fun b' hb' => hf b' (by simp [hb'])
+    simp only [List.filter_cons, List.flatMap_cons, List.filter_append]
+    by_cases hk : p b.1 = true
+    · have e1 : b.2.filter (fun e => p (lower e.key)) = b.2 := by
+        apply List.filter_eq_self.mpr
+        intro e he; rw [hb e he]; exact hk
+      simp only [hk, if_true, List.flatMap_cons]
+      rw [e1, ih hf']
+    · have e1 : b.2.filter (fun e => p (lower e.key)) = [] := by
+        apply List.filter_eq_nil_iff.mpr
+        intro e he; rw [hb e he]; exact hk
+      simp only [hk, Bool.false_eq_true, if_false]
+      rw [e1, ih hf', List.nil_append]
+
+/-- the entries of the buckets whose folded key satisfies `p` are the entries whose folded key
+    satisfies `p` (what Map.FindRegex computes bucket by bucket) -/
+theorem CMap.bucketFilter_eq (m : CMap) (p : Bytes → Bool) (h : m.WF) :
+    (m.buckets.filter fun b => p b.1).flatMap (·.2) = m.all.filter (fun e => p (lower e.key)) :=
+  bucketFilter_aux p m.buckets h.folded
+
 end Coraza.Engine
